@@ -40,6 +40,13 @@ BINOPS = [('eq', operator.eq), ('ne', operator.ne), ('lt', operator.lt), ('le', 
 UNOPS = [('neg', operator.neg), ('abs', abs)]
 
 
+_MAKE = [0]
+
+
+def c_is_not_current(u):
+    return L.exps_of(u.units)[3] == 0.0
+
+
 def make(kind, unit, mags, array):
     """(python object, SI magnitudes, dims) of an operand"""
     import numpy as np
@@ -52,6 +59,12 @@ def make(kind, unit, mags, array):
         return obj, si, [0.0] * 7
     u = eval_qty(unit)
     obj = (np.array(mags, dtype=float) if array else float(mags[0])) * u
+    _MAKE[0] += 1
+    if _MAKE[0] % 2:
+        # every other operand carries a units object of its own (the product with the database's unit shares the database's
+        # object): multiplied and divided by one unit of another kind — same magnitude, same dimension, a fresh object
+        w = 1.0 * eval_qty('A' if c_is_not_current(u) else 'cd')
+        obj = (obj * w) / w
     c = L.canon_value(obj)
     si = c['arr'] if 'arr' in c else [c['val']]
     return obj, si, c['dim']
@@ -182,11 +195,17 @@ def one_case(ctx, batch, op, fn, A, B, tag):
 BLANK_PAIRS = [('m s', 'ms'), ('m in', 'min'), ('m mol', 'mmol'), ('m g', 'mg'), ('m K', 'mK'), ('m A', 'mA'), ('k g', 'kg'),
                ('m N', 'mN'), ('c d', 'cd'), ('m m', 'mm'), ('h Pa', 'hPa')]
 
+# every non-SI unit of the package against an SI unit of the kind it is meant to be, and against one of another kind
+UNIT_PAIRS = [('h', 's'), ('h', 'm'), ('min', 's'), ('min', 'm'), ('u', 'kg'), ('lb', 'kg'), ('t', 'kg'), ('t', 's'), ('bar', 'Pa'), ('atm', 'Pa'),
+              ('torr', 'Pa'), ('psi', 'Pa'), ('BTU', 'J'), ('cal', 'J'), ('erg', 'J'), ('eV', 'J'), ('eV', 'V'), ('hp', 'W'), ('L', 'm^3'),
+              ('L', 'm'), ('ft', 'm'), ('in', 'm'), ('dyn', 'N'), ('lbf', 'N'), ('lbf', 'kg'), ('P', 'Pa s'), ('St', 'm^2/s'),
+              ('molecule', 'mol'), ('Ohm', 'V/A'), ('F', 'C/V'), ('W', 'J/s'), ('C', 'A s'), ('N', 'kg m/s^2'), ('J', 'N m'), ('Pa', 'N/m^2')]
+
 STRING_ENTRY_SCRIPT = r"""
 import sys, json, io, contextlib, operator
 sys.path.insert(0, %r)
 from harness import lib_units as U
-from pgradd.Units import Quantity
+from pgradd.Units import Quantity, eval_qty
 def outcome(f):
     try:
         return U.canon_value(f())
@@ -195,10 +214,10 @@ def outcome(f):
 out = []
 with contextlib.redirect_stdout(io.StringIO()):
     for a, b in json.load(sys.stdin):
-        qa = outcome(lambda: Quantity(2.0, a)); qb = outcome(lambda: Quantity(3.0, b))
+        qa = outcome(lambda: 2.0 * eval_qty(a)); qb = outcome(lambda: 3.0 * eval_qty(b))
         r = {'a': qa, 'b': qb}
         if 'err' not in qa and 'err' not in qb:
-            x, y = Quantity(2.0, a), Quantity(3.0, b)
+            x, y = 2.0 * eval_qty(a), 3.0 * eval_qty(b)
             r['add'] = outcome(lambda: x + y); r['lt'] = outcome(lambda: x < y); r['in_units'] = outcome(lambda: x.in_units(b))
         out.append(r)
 json.dump(out, sys.stdout)
@@ -211,7 +230,7 @@ def string_entry_cases(ctx, pairs=None):
     different dimensions still cannot be added, compared or converted into each other"""
     import subprocess, sys, os
     here = os.path.dirname(os.path.dirname(os.path.abspath(__file__)))
-    pairs = pairs or ([list(p) for p in BLANK_PAIRS] + [[b, a] for a, b in BLANK_PAIRS])
+    pairs = pairs or ([list(p) for p in BLANK_PAIRS] + [[b, a] for a, b in BLANK_PAIRS] + [list(p) for p in UNIT_PAIRS])
     texts = sorted({t for p in pairs for t in p})
     reps = ctx.model([{'op': 'c10.eval', 'text': t} for t in texts])
     if reps is None:
@@ -233,11 +252,23 @@ def string_entry_cases(ctx, pairs=None):
                               m.get('dim'), q)
                 return
         ma, mb = den[a], den[b]
-        if 'dim' in ma and 'dim' in mb and not L.dim_matches([float(x) for x in _dimf(ma['dim'])], mb['dim']) and 'add' in r:
+        if 'dim' not in ma or 'dim' not in mb or 'add' not in r:
+            continue
+        if not L.dim_matches([float(x) for x in _dimf(ma['dim'])], mb['dim']):
             for op in ('add', 'lt', 'in_units'):
                 if r[op].get('err') != 'unitsError':
                     ctx.violation('quantities of different dimensions (built from unit strings) are combined without a units error',
                                   dict(inp, operation=op), 'unitsError', r[op])
+                    return
+        elif 'val' in ma and 'val' in mb:
+            va, vb = 2.0 * float(common.unjrat(ma['val'])), 3.0 * float(common.unjrat(mb['val']))
+            want = {'add': va + vb, 'lt': va < vb, 'in_units': va / (vb / 3.0)}
+            got = {'add': r['add'].get('val'), 'lt': r['lt'].get('bool'), 'in_units': r['in_units'].get('val')}
+            for op in ('add', 'lt', 'in_units'):
+                ok = got[op] is not None and (got[op] == want[op] if op == 'lt' else common.close(got[op], want[op], abs(va) + abs(vb)))
+                if not ok:
+                    ctx.violation('quantities of the same dimension (built from unit strings) do not combine as their SI magnitudes',
+                                  dict(inp, operation=op), want[op], r[op])
                     return
 
 
